@@ -650,3 +650,110 @@ func renderAtoms(as []Atom) string {
 	}
 	return sb.String()
 }
+
+
+// ---- binary string predicates lifted over tables (HasPrefix / HasSuffix / Contains of tokens)
+
+// tokTable returns (index term, table of interned IDs) describing a single-token string, or ok=false.
+func (x *Exec) tokTable(tok []Atom) (*Term, []int, bool) {
+	if len(tok) != 1 {
+		if len(tok) == 0 {
+			return BVi(0, 64), []int{x.in.ID("")}, true
+		}
+		return nil, nil, false
+	}
+	a := tok[0]
+	switch a.K {
+	case ALit:
+		return BVi(0, 64), []int{x.in.ID(a.S)}, true
+	case ATok:
+		if a.Tab != nil {
+			return a.Idx, a.Tab, true
+		}
+		ids := make([]int, len(x.in.strs))
+		for i := range ids {
+			ids[i] = i
+		}
+		return a.T, ids, true
+	}
+	return nil, nil, false
+}
+
+func (x *Exec) tokPred2(f func(a, b string) bool, ta, tb []Atom, what string) *Term {
+	ia, taba, oka := x.tokTable(ta)
+	ib, tabb, okb := x.tokTable(tb)
+	if !oka || !okb {
+		return x.imprecise(what + " on composite tokens")
+	}
+	var ors []*Term
+	n := 0
+	for i, ida := range taba {
+		sa, _ := x.in.Str(ida)
+		var js []int
+		for j, idb := range tabb {
+			sb, _ := x.in.Str(idb)
+			if f(sa, sb) {
+				js = append(js, j)
+			}
+		}
+		if len(js) == 0 {
+			continue
+		}
+		n += len(js)
+		if n > 60000 {
+			panic(unsupported(what + ": relation too dense to lift"))
+		}
+		var inner []*Term
+		if len(js) == len(tabb) {
+			inner = []*Term{tTrue}
+		} else {
+			for _, j := range js {
+				inner = append(inner, Eq(ib, BVi(int64(j), ib.W)))
+			}
+		}
+		ors = append(ors, And(Eq(ia, BVi(int64(i), ia.W)), Or(inner...)))
+	}
+	r := Or(ors...)
+	// tokens that are no interned string (IDs beyond the table): unknown relation
+	unkA := tTrue
+	if ta != nil && len(ta) == 1 && ta[0].K == ATok && ta[0].Tab == nil {
+		unkA = Ult(ia, BVi(int64(len(taba)), ia.W))
+	}
+	unkB := tTrue
+	if tb != nil && len(tb) == 1 && tb[0].K == ATok && tb[0].Tab == nil {
+		unkB = Ult(ib, BVi(int64(len(tabb)), ib.W))
+	}
+	known := And(unkA, unkB)
+	if known.IsTrue() {
+		return r
+	}
+	return Ite(known, r, x.fresh("strpred", 0))
+}
+
+func (x *Exec) strAffix(s, sub Value, suffix bool) *Term {
+	name := "strings.HasPrefix"
+	f := strings.HasPrefix
+	if suffix {
+		name, f = "strings.HasSuffix", strings.HasSuffix
+	}
+	if a, ok := s.(string); ok {
+		if b, ok := sub.(string); ok {
+			return Bool(f(a, b))
+		}
+	}
+	sa, ba := toAtoms(s), toAtoms(sub)
+	if !simpleAtoms(sa) || !simpleAtoms(ba) {
+		panic(unsupported(name + " on opaque text"))
+	}
+	stoks, _ := splitTokens(sa)
+	btoks, bseps := splitTokens(ba)
+	if len(bseps) > 0 {
+		panic(unsupported(name + " with a needle spanning several tokens"))
+	}
+	tok := stoks[0]
+	if suffix {
+		tok = stoks[len(stoks)-1]
+	}
+	// an empty needle always matches; a non-empty whitespace-free needle can only match inside the edge token
+	return x.tokPred2(f, tok, btoks[0], name)
+}
